@@ -163,6 +163,14 @@ def to_text(h, opts=None):
     return '\n'.join(L) + '\n'
 
 
+def late_rebind_history(kind):
+    """a light VM bound at K1; the cache goes K1 -> K2 -> K1; only then randomx_vm_set_cache; two hashes"""
+    A = lambda **k: k
+    return [A(a='AllocCache', c='c1', s='s1', m='m1'), A(a='InitCache', c='c1', k='K1', skip=False), A(a='CreateVm', v='v1', kind=kind, c='c1', d='none', v2=False),
+            A(a='Hash', v='v1', **{'in': 'I1'}, key='K1'), A(a='InitCache', c='c1', k='K2', skip=False), A(a='InitCache', c='c1', k='K1', skip=False),
+            A(a='SetCache', v='v1', c='c1'), A(a='Hash', v='v1', **{'in': 'I1'}, key='K1'), A(a='Hash', v='v1', **{'in': 'I2'}, key='K1')]
+
+
 def exe():
     return vlib.build_harness('rx_api', extra=['-fno-access-control'])
 
@@ -199,9 +207,9 @@ def fresh_tables(combos, kinds, workdir):
         return dict(ex.map(one, combos))
 
 
-def replay(scens, workdir, os_log=False, watchdog=300, par=None):
+def replay(scens, workdir, os_log=False, watchdog=300, par=None, binp=None):
     """scens: list of dicts {text, data, fresh}; returns list of trace line lists (one per scenario)"""
-    binp = exe()
+    binp = binp or exe()
     os.makedirs(workdir, exist_ok=True)
 
     def one(i):
